@@ -49,7 +49,7 @@ BOUNDS = {
 ASSUMPTIONS = [
     "observation values are non-zero and finite so reveal never refuses for data reasons",
     "predictions compared with 1e-12 tolerance (identical ids give identical arithmetic)",
-    "an empty half (fraction giving 0 rows) is not used as a BFS root (C02 covers the empty screen)",
+    "an empty half (fraction 0) is not used as a BFS root; its embedding sizes are judged directly and after save/load, mask, unmask",
 ]
 
 
@@ -117,10 +117,14 @@ def plan(tier, seed):
     for pi, v in enumerate(parents(tier)):
         for f in fr:
             items.append({"variant": [v[0], v[1], v[2], v[3]], "fraction": f})
+    for v in parents(tier)[:2] + parents(tier)[-1:]:
+        items.append({"variant": [v[0], v[1], v[2], v[3]], "fraction": 0.0})  # the test half is empty
     for n in (130, 200, 257, 300):
         items.append({"large": n, "fraction": 0.25})
     for v in parents(tier)[:3]:
         items.append({"variant": [v[0], v[1], v[2], v[3]], "fraction": 0.5, "supplied": True})
+    for v in parents(tier)[1:3]:
+        items.append({"variant": [v[0], v[1], v[2], v[3]], "fraction": 0.5, "supplied": "permuted"})
     for v in parents(tier)[:4]:
         items.append({"variant": [v[0], v[1], v[2], v[3]], "cli_train": True})
     # environment dimension: the whole lifecycle with the package logger at DEBUG (what --verbose sets)
@@ -373,6 +377,17 @@ def prepare(item, chooser, tmpdir=None):
     v = item["variant"]
     parent = make_screen(_parent_rows((v[0], v[1], v[2], v[3])), control=v[0])
     rng = ScriptedGenerator(chooser)
+    if item.get("supplied") == "permuted":
+        # the caller's registry numbers samples and conditions in its own order (ids reversed against the sorted names): a valid
+        # mapping; every stage, in memory and after save / load, keeps exactly that numbering
+        sn_, si_ = (np.asarray(a) for a in parent.sample_mapping)
+        tn_, td_, ti_ = (np.asarray(a) for a in parent.treatment_mapping)
+        roll = lambda a: np.roll(a, 1)  # noqa: E731  (the listing is not in sorted order either)
+        sm_p = (roll(sn_), roll(int(si_.max()) - si_))
+        tm_p = (roll(tn_), roll(td_), roll(np.where(ti_ == -1, -1, int(ti_.max()) - ti_)))
+        parent = make_screen(_parent_rows((v[0], v[1], v[2], v[3])), control=v[0], treatment_mapping=tm_p, sample_mapping=sm_p)
+        train, test = R.create_plate_balanced_holdout_set_among_masked_plates(parent, item["fraction"], rng)
+        return parent, train, test
     if item.get("supplied"):
         # the prepared screen was built from mapping arrays the CALLER owns (its registry of samples / conditions); after the
         # split the caller goes on using them - renumbers, renames.  Every later stage still assigns the original ids.
@@ -541,7 +556,23 @@ def _run_item(item, col, tier):
                 col.evaluations += 1
                 case0 = {"item": item, "choices": ch.choices, "half": half_name, "history": []}
                 if root.size == 0:
+                    # an empty half (hold-out fraction 0, or everything held out) is a stage too: it knows the same samples and
+                    # conditions as its sibling, also after mask / unmask / save / load (a model sized by it predicts the other half)
                     col.count("empty-half")
+                    stage = root
+                    for op in (None, ("saveload",), ("mask",), ("unmask",), ("saveload",)):
+                        try:
+                            stage = stage if op is None else apply_op(stage, op, tmpdir)
+                            got_sizes = sizes(stage)
+                        except Exception as exc:  # noqa: BLE001
+                            col.refused += 1
+                            col.outcome("refused-empty", type(exc).__name__)
+                            break
+                        col.transitions += 1
+                        if any(a < b for a, b in zip(got_sizes, ctx[4])):
+                            col.violation(f"C03|sizes|empty-{half_name}", f"the empty {half_name} half (answers {ch.choices}){'' if op is None else ' after ' + op[0]} implies embedding "
+                                                                          f"sizes {got_sizes}, the prepared simulation has {ctx[4]}", case0)
+                            break
                     continue
                 for suffix, msg in check_screen(root, ctx, "holdout"):
                     col.violation(f"C03|{suffix}|holdout-{half_name}", f"{half_name} half of the split (answers {ch.choices}): {msg}", case0)
